@@ -249,8 +249,11 @@ func (l *Listener) Replace(addr string, p cfg.Profile) error {
 	if len(h) == 0 {
 		return ErrNoHost
 	}
-	l.state.Set(stateReplacing)
-	l.listener.Close()
+	// The socket is nil after a Replace that could not bind (the Listener is closed
+	// then, the bind below fails on its canceled context).
+	if l.state.Set(stateReplacing); l.listener != nil {
+		l.listener.Close()
+	}
 	l.listener = nil
 	v, err := p.Listen(l.ctx, h)
 	if err != nil {
